@@ -96,8 +96,38 @@ fn hir(out: &mut String, h: &Hir) {
     }
 }
 
-pub fn record(graph: &Graph, utf8: bool) {
+thread_local! {
+    static RAW: std::cell::RefCell<String> = const { std::cell::RefCell::new(String::new()) };
+}
+
+/// The graph as built from the DFA, before the early-accept / late-accept / pruning / de-duplication
+/// passes of `Graph::new` (lines RAWDEF, RSTATE, REDGE; emitted in front of the final dump).
+pub fn record_raw(graph: &Graph) {
     let mut out = String::new();
+    writeln!(out, "RAWDEF {} {}", graph.iter_states().count(), sid(graph.root())).unwrap();
+    for state in graph.iter_states() {
+        let sd = graph.get_state(state);
+        writeln!(
+            out,
+            "RSTATE {} {} {}",
+            sid(state),
+            sd.state_type.accept.map(|l| l.0 as i64).unwrap_or(-1),
+            sd.eoi.map(|s| sid(s) as i64).unwrap_or(-1)
+        )
+        .unwrap();
+        for (bc, t) in &sd.normal {
+            write!(out, "REDGE {} {} {}", sid(state), sid(*t), bc.ranges.len()).unwrap();
+            for r in &bc.ranges {
+                write!(out, " {} {}", r.start(), r.end()).unwrap();
+            }
+            out.push('\n');
+        }
+    }
+    RAW.with(|r| *r.borrow_mut() = out);
+}
+
+pub fn record(graph: &Graph, utf8: bool) {
+    let mut out = RAW.with(|r| std::mem::take(&mut *r.borrow_mut()));
     let nstates = graph.iter_states().count();
     writeln!(
         out,
